@@ -484,7 +484,7 @@ func textDiffEval(c *run.Ctx, be textBackend, id string, prog *wgen.Program, see
 			}
 			bad := false
 			for _, t := range tr.static {
-				note(run.Outcome{V: run.Violated, Class: "static:" + string(t.Kind), Reason: fmt.Sprintf("%s [%s]: %s%s", id, oname, oneLine(t.Error()), emittedLine(tr.text, t.Error())), Witness: w})
+				note(run.Outcome{V: run.Violated, Class: "static:" + string(t.Kind), Reason: fmt.Sprintf("%s [%s]: %s%s", id, oname, oneLineN(t.Error(), 400), emittedLine(tr.text, t.Error())), Witness: w})
 				bad = true
 				break
 			}
@@ -599,4 +599,12 @@ func emittedLine(text, msg string) string {
 		return ""
 	}
 	return " | emitted: " + strings.TrimSpace(lines[n-1])
+}
+
+func oneLineN(s string, n int) string {
+	s = strings.ReplaceAll(s, "\n", " | ")
+	if len(s) > n {
+		s = s[:n] + "…"
+	}
+	return s
 }
